@@ -157,6 +157,7 @@ class Core:
         self.obligations = []
         self.obl_names = set()
         self.goal_assumptions = set()
+        self.extra_path = []
         self.ref_class = None
         self.read_log = None
         self.heap_tag = "new"
@@ -252,7 +253,7 @@ class Core:
         self.obl_names.add(name)
         goal = zbool(goal)
         live = self.live(st)
-        path = [zbool(p) for p in st.path if not is_true(p)]
+        path = [zbool(p) for p in st.path if not is_true(p)] + [zbool(p) for p in self.extra_path]
         if not is_true(live):
             path.append(zbool(live))
         if self.binders:
@@ -471,7 +472,13 @@ class Core:
             parts = []
             for i in range(lo if isinstance(lo, int) else 0, self.bound + 1):
                 k = z3.IntVal(i)
-                parts.append(z3.Implies(z3.And(k >= lo, k < length), zbool(body_fn(k))))
+                rng = z3.And(k >= lo, k < length)
+                self.extra_path.append(rng)       # obligations raised while evaluating the body hold only inside the range
+                try:
+                    b = zbool(body_fn(k))
+                finally:
+                    self.extra_path.pop()
+                parts.append(z3.Implies(rng, b))
             return z3.And(*parts) if parts else z3.BoolVal(True)
         k = self.qvar()
         return z3.ForAll([k], z3.Implies(z3.And(k >= lo, k < length), zbool(body_fn(k))))
@@ -481,7 +488,13 @@ class Core:
             parts = []
             for i in range(lo if isinstance(lo, int) else 0, self.bound + 1):
                 k = z3.IntVal(i)
-                parts.append(z3.And(k >= lo, k < length, zbool(body_fn(k))))
+                rng = z3.And(k >= lo, k < length)
+                self.extra_path.append(rng)
+                try:
+                    b = zbool(body_fn(k))
+                finally:
+                    self.extra_path.pop()
+                parts.append(z3.And(rng, b))
             return z3.Or(*parts) if parts else z3.BoolVal(False)
         k = self.qvar()
         return z3.Exists([k], z3.And(k >= lo, k < length, zbool(body_fn(k))))
